@@ -12,7 +12,13 @@
            (u64 head-room, plain arithmetic), the coupling invariant [Good].
    Part 3  [contract_step]: one contract-abiding call preserves Good and satisfies every
            side condition of C14's op_wf, C07's op_pre_node2 and C20's op_wf2.
-   Part 4  traces from RawNode::new and the corollaries pinned in Props/C14.v, C07.v. *)
+   Part 4  traces from RawNode::new ([crun], [contract_trace]) and the corollaries pinned in
+           Props/C14.v (section "application contract", which also holds the C20 corollaries:
+           Props/C20.v is generated) and Props/C07.v.
+   Samples the follower trace of RepInvSamples is contract-abiding.
+   Part 5  site 1422 (commit_info): the term at the commit index stays known ([TK]).
+   Witnesses for the compaction clause, the "no call between ready and advance" clause and
+           the start condition. *)
 From RV Require Import Base.Prelude Base.IdSet M.Util M.UtilProofs M.Proto M.MemStorage
   M.MemStorageProofs M.Inflights M.Progress M.RaftLog M.Quorum M.ConfChange M.Msg M.Raft
   M.RawNode M.RaftProofs M.RaftLogProofs M.RaftLogProofsOps M.RaftLogProofsStore
